@@ -517,11 +517,45 @@ _C15 = [
      'tie_theorem': 'C15.src_backoff_eq_model'},
 ]
 
+# SpooledStringIO(SpooledIOBase): `_buffer` is a `codecs.EncodedFile(stream, data_encoding='utf-8')`, the spec-declared
+# abstract codec file `PyRtC18.CFile` = the hand model's stream + transliterated `codecs.StreamReader`.  The module constant
+# READ_CHUNK_SIZE is read through the state field `chunk` (`module_params`; the tie's initial state holds the regenerated
+# constant).  `seek` is translated twice: `seek0` FIXES `mode = 0` (what `len` and `rollover` call; it does not call `len`),
+# then `len`, then the full `seek`.
+SPOOLED_STRING = {
+    'name': 'SpooledStringIO', 'lean_name': 'SpooledStringIO', 'mro': ['SpooledStringIO', 'SpooledIOBase'],
+    'unit': 'Char', 'seq_class': 'str',
+    'buffer_property': {'name': 'buffer', 'field': '_buffer', 'new': "EncodedFile(BytesIO(), data_encoding='utf-8')"},
+    'state': {'_buffer': 'CFile', '_tell': 'Int', '_max_size': 'Int', '_dir': 'Opaque', 'chunk': 'Int'},
+    'module_params': {'READ_CHUNK_SIZE': 'chunk'},
+}
+_SS = _c18_methods(SPOOLED_STRING, [
+    {'py': 'closed', 'name': 'closed', 'params': {}, 'result': 'Bool', 'tie_theorem': 'C18.src_ss_closed_eq_model'},
+    {'py': '_checkClosed', 'name': 'checkClosed', 'params': {'msg': 'Option Opaque'}, 'result': 'None',
+     'tie_theorem': 'C18.src_ss_checkClosed_eq_model'},
+    {'py': '_rolled', 'name': 'rolled', 'params': {}, 'result': 'Bool', 'tie_theorem': 'C18.src_ss_rolled_eq_model'},
+    {'py': 'tell', 'name': 'tell', 'params': {}, 'result': 'Int', 'tie_theorem': 'C18.src_ss_tell_eq_model'},
+    {'py': 'read', 'name': 'read', 'params': {'n': 'Int'}, 'result': 'Str', 'tie_theorem': 'C18.src_ss_read_eq_model'},
+    {'py': '_traverse_codepoints', 'name': 'traverse', 'params': {'current_position': 'Int', 'n': 'Int'},
+     'result': 'Int', 'tie_theorem': 'C18.src_ss_traverse_eq_model'},
+    {'py': 'seek', 'name': 'seek0', 'params': {'pos': 'Int'}, 'fixed': {'mode': 0}, 'result': 'Int',
+     'tie_theorem': 'C18.src_ss_seek0_eq_model'},
+    {'py': 'len', 'name': 'len', 'params': {}, 'result': 'Int', 'tie_theorem': 'C18.src_ss_len_closed'},
+    {'py': 'seek', 'name': 'seek', 'params': {'pos': 'Int', 'mode': 'Int'}, 'result': 'Int',
+     'tie_theorem': 'C18.src_ss_seek_bad_mode'},
+    {'py': 'rollover', 'name': 'rollover', 'params': {}, 'result': 'None',
+     'tie_theorem': 'C18.src_ss_rollover_rolled'},
+    {'py': 'write', 'name': 'write', 'params': {'s': 'Str'}, 'result': 'None',
+     'tie_theorem': 'C18.src_ss_write_closed'},
+    {'py': 'readline', 'name': 'readline', 'params': {'length': 'Option Int'}, 'result': 'Str',
+     'tie_theorem': 'C18.src_ss_readline_closed'},
+])
+
 SPECS = {
     'C14': _C14,
     'C12': _C12,
     'C15': _C15,
-    'C18': _MFR + _SB,
+    'C18': _MFR + _SB + _SS,
     'C13': _FB,
     'C01': _OMD,
     'C05': _C05,
